@@ -85,7 +85,7 @@ def build_model(case, variant=0, drop_abs=False):
     nodes, inits = [], []
 
     def const(name, vals, scalar=False):
-        vals = [INT64_MAX if x == BIG else x for x in vals]
+        vals = [INT64_MAX if x == BIG else -INT64_MAX - 1 if x == -BIG else x for x in vals]
         if variant == 0:
             inits.append(h.make_tensor(name, T.INT64, [] if scalar else [len(vals)], vals))
         elif variant == 1 or scalar:
@@ -624,7 +624,7 @@ def run(ctx: core.Ctx):
     q = ctx.quick
     chain = "SymShape_chain3.cfg" if q else "SymShape_chain3t.cfg"
     jobs = [("vacuity: Sound under AllDevs must fail", "SymShape_vacuity.cfg", dict(timeout=1200, workers=2, heap="1g"))]
-    for cfg in [chain, "SymShape_quick.cfg"] if q else [chain, "SymShape_quick.cfg", "SymShape_thorough.cfg", "SymShape_design.cfg"]:
+    for cfg in [chain, "SymShape_quick.cfg", "SymShape_attrs.cfg"] if q else [chain, "SymShape_quick.cfg", "SymShape_attrs.cfg", "SymShape_thorough.cfg", "SymShape_design.cfg"]:
         jobs.append((cfg, cfg, dict(timeout=3000, workers=8 if q else 6, heap="3g" if q else "6g")))
     nsim, num = (4, 200) if q else (12, 1000)
     for j in range(nsim):
@@ -676,7 +676,7 @@ def run(ctx: core.Ctx):
         "free dims are bound to {0,1,2,3,7}; input contents are small integers stored as float32 so equality is exact",
         "data tensors are abstracted to their shape inside the spec (no op of the menu changes contents except by a shape-preserving map); the verdict itself compares real tensors",
         "Reshape with allowzero=1 whose runtime target holds both -1 and 0, and Concat of empty operands with mismatching other dims, are left open by ONNX (ORT is lenient and returns uninitialised memory): the spec marks them UNSPEC and those bindings are not judged",
-        "exhaustive part: all models of <= 2 nodes over the reduced menus and all 3-node chains over the chain input menu; longer models (<= 6 nodes, full menus) are a seeded TLC simulation sample",
+        "exhaustive part: all models of <= 2 nodes over the reduced menus, all 3-node chains over the chain input menu, and the attribute sweep (every Shape start/end in [-(rank+2), rank+2], every Gather index in [-len, len-1], Slice bounds below -dim / above dim / INT64_MIN / INT64_MAX and negative steps); longer models (<= 6 nodes, full menus) are a seeded TLC simulation sample",
         "the annotated form (graph outputs declared with the shapes observed at the judged bindings) is run for models whose outputs include a data Reshape/Expand/Slice/Concat (quick: half of them)",
     ]
 
